@@ -24,6 +24,7 @@ from ..selftest import Mutant
 from . import kinds_driver
 
 PROP = "C06"
+TECHNIQUE = "static analysis: rank-domain abstract interpretation of the partial-run path + truth-table evaluation of the reduced-axis predicate + validation-dominance (CFG) + guard analysis of the selection flag"
 AD = "pipefunc.map.adaptive"
 PREP = "pipefunc.map._prepare"
 RUN = "pipefunc.map._run"
